@@ -426,6 +426,13 @@ impl FunctionStatement {
 
     /// Returns a mutable reference to the first token for this statement, creating it if missing.
     pub fn mutate_first_token(&mut self) -> &mut Token {
+        if !self.attributes.is_empty() {
+            // attributes are written in front of the keyword
+            return self
+                .attributes
+                .mutate_first_token()
+                .expect("attributes should not be empty");
+        }
         self.set_default_tokens();
         &mut self.tokens.as_deref_mut().unwrap().function
     }
